@@ -535,6 +535,35 @@ def ep_selected(prog: Program) -> RuleResult:
     producers = {f.name for f in fs if "selected_variable" in f.name}
     if not producers:
         raise AnalysisError("EP-SELECTED: no method of QueryObjectDescriptor evaluates the selected variables")
+    # A filter on the flag only matters if a selected value can be flagged false. It cannot when (a) the descriptor evaluates its selected
+    # expressions with itself as their parent and (b) "do I stand as a condition" answers from that parent alone - true below a query only
+    # for the query's condition (its _child_), the structural tree being consulted only for a node that has no parent in this evaluation.
+    # Then the obligation is discharged by those two facts (EP-OPERAND keeps (b)); otherwise the stream must not be filtered.
+    passes_self = False
+    for f in fs:
+        for c in calls_in(f.node):
+            if isinstance(c.func, ast.Attribute) and c.func.attr == "_evaluate__" and "var" in src(c.func.value):
+                pv = next((k.value for k in c.keywords if k.arg == "parent"), c.args[1] if len(c.args) > 1 else None)
+                passes_self = pv is not None and src(pv) == f.params[0]
+    se_ = prog.cls("symbolic.SymbolicExpression")
+    sac = prog.lookup(se_.qual, "_stands_as_condition_")
+    by_parent_alone = False
+    if sac is not None:
+        probe = ast.parse(f"{sac.params[0] if sac.params else 'self'}._stands_as_condition_", mode="eval").body
+        exprs = _expanded_test(prog, se_.qual, sac, probe)
+        roots = [x for e in exprs for x in ast.walk(e) if isinstance(x, ast.Compare) and "_conditions_root_" in src(x)]
+        parentless = lambda e: isinstance(e, ast.Compare) and len(e.ops) == 1 and isinstance(e.ops[0], ast.Is) and "_eval_parent_" in src(e.left) and isinstance(e.comparators[0], ast.Constant) and e.comparators[0].value is None
+        tree_guarded = all(any(isinstance(b, ast.BoolOp) and isinstance(b.op, ast.And) and any(v is rt for v in b.values) and any(parentless(v) for v in b.values[:b.values.index(rt)])
+                               for e in exprs for b in ast.walk(e)) for rt in roots)
+        qtests = [x for e in exprs for x in ast.walk(e) if isinstance(x, ast.Call) and isinstance(x.func, ast.Name) and x.func.id == "isinstance" and len(x.args) == 2 and "QueryObjectDescriptor" in src(x.args[1])]
+        child_only = all(any(isinstance(b, ast.BoolOp) and isinstance(b.op, ast.And) and any(v is q for v in b.values) and any("_child_" in src(v) and " is " in src(v) for v in b.values)
+                             for e in exprs for b in ast.walk(e)) for q in qtests)
+        by_parent_alone = tree_guarded and child_only and bool(exprs)
+    if passes_self and by_parent_alone:
+        r.ok("QueryObjectDescriptor#selected-values-are-never-flagged-false", f"{sac.module.relpath}:{sac.node.lineno}", "",
+             "selected expressions are evaluated with the descriptor as their parent and only the descriptor's condition stands as a condition below it: "
+             "their results are flagged true whatever the value, a filter on the flag could not drop one")
+        return r
     n = 0
     for f in sorted(fs, key=lambda x: x.qual):
         par = parents_of(f.node)
@@ -949,18 +978,20 @@ def ep_quant(prog: Program) -> RuleResult:
                 id_lists.add(g.iter.id)
     walker_vars = set()
     for x in walk_local(f.node):
-        if isinstance(x, ast.Assign) and len(x.targets) == 1 and isinstance(x.targets[0], ast.Name) and "_child_" in src(x.value) and \
+        if isinstance(x, ast.Assign) and len(x.targets) == 1 and isinstance(x.targets[0], ast.Name) and any(isinstance(y, (ast.Attribute, ast.Constant)) and (getattr(y, "attr", None) == "_child_" or getattr(y, "value", None) == "_child_") for y in ast.walk(x.value)) and \
                 any(isinstance(y, ast.Attribute) and is_self_attr(y) and y.attr in ("variable", "left") for y in ast.walk(x.value)):
             walker_vars.add(x.targets[0].id)
     chain = False
     for x in walk_local(f.node):
         if isinstance(x, ast.Call) and isinstance(x.func, ast.Attribute) and isinstance(x.func.value, ast.Name) and x.func.value.id in id_lists and x.func.attr in ("append", "extend") and x.args:
             t = src(x.args[0])
-            if any(t.startswith(w + ".") or t == w for w in walker_vars) or (("_descendants_" in t or "_child_" in t) and ("self.variable" in t or "self.left" in t)):
+            walks = any(isinstance(y, ast.Attribute) and y.attr in ("_descendants_", "_child_") for y in ast.walk(x.args[0]))
+            if any(t.startswith(w + ".") or t == w for w in walker_vars) or (walks and ("self.variable" in t or "self.left" in t)):
                 chain = True
         if isinstance(x, (ast.Assign, ast.AugAssign)) and any(isinstance(tg, ast.Name) and tg.id in id_lists for tg in (x.targets if isinstance(x, ast.Assign) else [x.target])):
             t = src(x.value)
-            if ("_descendants_" in t or "_child_" in t) and ("self.variable" in t or "self.left" in t):
+            walks = any(isinstance(y, ast.Attribute) and y.attr in ("_descendants_", "_child_") for y in ast.walk(x.value))
+            if walks and ("self.variable" in t or "self.left" in t):
                 chain = True
     r.check(chain, "Exists._evaluate__#chain-below-quantified-is-free", site(f), f"id lists {sorted(id_lists)}, chain walkers {sorted(walker_vars)}",
             "the nodes the quantified expression is computed from are part of the key",
